@@ -112,6 +112,10 @@ func genC14(c *ctx) {
 	p.FilesPer = 1 + c.n(3)
 	p.NoSchema = c.chance(0.5)
 	p.ExprDepth = 2 + c.n(3)
+	if !p.NoSchema && c.chance(0.5) {
+		// the fragment both syntaxes express: JSON outlines need a schema
+		p.JSONTwin, p.HalfTyped, p.Odd, p.Layout = true, 0, false, false
+	}
 	c.makeWorld(p)
 	args := [][]string{{""}, {"", "a"}, {"na", "", "zzz-miss"}, {"\"", "aws", ""}}[c.n(4)]
 	chk := func() *h.Check { return &h.Check{Key: c.key(), Args: args} }
